@@ -1074,7 +1074,13 @@ func genMergeCaseOpt(c *hlib.Ctx, o mergeGenOpt) string {
 		c.Count("case:hash-collisions(oracle off)")
 	}
 	limit := 0
-	// logical series: label sets over b, c (replica label "a" sorts first)
+	// replica label names: "a" sorts before every series label, "m" between them (b, c, d < m < x, z),
+	// "zr" after all of them; sometimes several replica labels
+	replicaNames := [][]string{{"a"}, {"m"}, {"m"}, {"zr"}, {"a", "m"}, {"m", "zr"}}[r.Intn(6)]
+	if withoutOn {
+		c.Count("shape:replica-labels-" + strings.Join(replicaNames, "+"))
+	}
+	// logical series: label sets over b, c, d, x, z
 	nLogical := r.Range(0, 6)
 	if o.barrenPct > 0 && r.Intn(100) < o.barrenPct {
 		nLogical = 0
@@ -1082,7 +1088,14 @@ func genMergeCaseOpt(c *hlib.Ctx, o mergeGenOpt) string {
 	}
 	var logical [][]gLabel
 	seenL := map[string]bool{}
-	for len(logical) < nLogical {
+	addLogical := func(l []gLabel) {
+		k := labelsTok(l)
+		if !seenL[k] {
+			seenL[k] = true
+			logical = append(logical, l)
+		}
+	}
+	for tries := 0; len(logical) < nLogical && tries < 40; tries++ {
 		var l []gLabel
 		if r.Chance(9, 10) {
 			l = append(l, gLabel{"b", strconv.Itoa(r.Range(1, 3))})
@@ -1093,13 +1106,32 @@ func genMergeCaseOpt(c *hlib.Ctx, o mergeGenOpt) string {
 		if r.Chance(1, 6) {
 			l = append(l, gLabel{"d", strconv.Itoa(r.Range(1, 2))})
 		}
-		k := labelsTok(l)
-		if !seenL[k] {
-			seenL[k] = true
-			logical = append(logical, l)
+		if r.Chance(1, 5) {
+			l = append(l, gLabel{"x", strconv.Itoa(r.Range(1, 2))})
 		}
-		if len(seenL) > 30 {
-			break
+		addLogical(l)
+		// label-set shapes around the replica label
+		switch r.Intn(6) {
+		case 0:
+			// prefix pair: the same set plus one extra label that sorts after all of its labels
+			// (before or after the replica label name, depending on the replica label drawn)
+			var cands []string
+			for _, n := range []string{"c", "d", "x", "z"} {
+				if len(l) == 0 || n > l[len(l)-1].n {
+					cands = append(cands, n)
+				}
+			}
+			if len(cands) > 0 {
+				addLogical(append(append([]gLabel{}, l...), gLabel{cands[r.Intn(len(cands))], strconv.Itoa(r.Range(1, 2))}))
+				c.Count("shape:prefix-pair")
+			}
+		case 1:
+			// sets that differ only in their last label: one name before "m", one after
+			if len(l) > 0 && l[len(l)-1].n < "d" {
+				addLogical(append(append([]gLabel{}, l...), gLabel{"d", "1"}))
+				addLogical(append(append([]gLabel{}, l...), gLabel{"x", "1"}))
+				c.Count("shape:differ-around-replica-label")
+			}
 		}
 	}
 	protos := make([][]gChunk, len(logical))
@@ -1125,7 +1157,13 @@ func genMergeCaseOpt(c *hlib.Ctx, o mergeGenOpt) string {
 		var hs []held
 		replicas := []string{""}
 		if withoutOn && !st.without {
-			replicas = [][]string{{"1"}, {"1", "2"}, {"2", "3"}}[r.Intn(3)]
+			// constant across the store's whole response, or varying
+			replicas = [][]string{{"1"}, {"1"}, {"2"}, {"1", "2"}, {"2", "3"}}[r.Intn(5)]
+			if len(replicas) == 1 {
+				c.Count("shape:replica-value-constant-in-store")
+			} else {
+				c.Count("shape:replica-value-varies-in-store")
+			}
 		}
 		for _, rep := range replicas {
 			for li, l := range logical {
@@ -1134,7 +1172,10 @@ func genMergeCaseOpt(c *hlib.Ctx, o mergeGenOpt) string {
 				}
 				ll := append([]gLabel{}, l...)
 				if rep != "" {
-					ll = append([]gLabel{{"a", rep}}, ll...)
+					for _, rn := range replicaNames {
+						ll = append(ll, gLabel{rn, rep})
+					}
+					sort.SliceStable(ll, func(i, j int) bool { return ll[i].n < ll[j].n })
 				}
 				var cs []gChunk
 				for _, p := range protos[li] {
@@ -1269,7 +1310,11 @@ func genMergeCaseOpt(c *hlib.Ctx, o mergeGenOpt) string {
 	}
 	without := "-"
 	if withoutOn {
-		without = hlib.HexS("a")
+		var ws []string
+		for _, rn := range replicaNames {
+			ws = append(ws, hlib.HexS(rn))
+		}
+		without = strings.Join(ws, ",")
 		c.Count("case:without-replica-labels")
 	}
 	if lazy {
